@@ -363,6 +363,19 @@ func (c *Ctx) Build(target, flavour string) (string, error) {
 	case "checkptr":
 		args = append(args, "-gcflags=all=-d=checkptr")
 	}
+	// VERIF_REPO=<dir> builds against a scratch copy of the repository instead of /repo
+	// (used only for sensitivity experiments; registered commands never set it).
+	if alt := os.Getenv("VERIF_REPO"); alt != "" {
+		mf := filepath.Join(c.Scratch, "alt.mod")
+		gm, err := os.ReadFile(filepath.Join(HarnessDir, "go.mod"))
+		if err != nil {
+			return "", err
+		}
+		os.WriteFile(mf, []byte(strings.Replace(string(gm), "=> /repo", "=> "+alt, 1)), 0644)
+		gs, _ := os.ReadFile(filepath.Join(HarnessDir, "go.sum"))
+		os.WriteFile(filepath.Join(c.Scratch, "alt.sum"), gs, 0644)
+		args = append(args, "-modfile="+mf)
+	}
 	args = append(args, "-o", out, "./wcmd/"+target)
 	cmd := exec.Command("go", args...)
 	cmd.Dir = HarnessDir
